@@ -23,6 +23,7 @@ import (
 
 type C18Case struct {
 	Gas0  int       `json:"gas0"`
+	Base0 int       `json:"base0,omitempty"` // genesis base fee selector
 	Steps []C18Step `json:"steps"`
 }
 
@@ -39,12 +40,12 @@ var c18Kinds = []string{"valid", "unknown-parent", "time-equals-parent", "time-b
 	"gas-limit-at-bound", "gas-limit-below-minimum", "base-fee-plus-one", "base-fee-minus-one", "difficulty-plus-one", "difficulty-minus-one", "duplicate"}
 
 func genC18(t *rapid.T) C18Case {
-	c := C18Case{Gas0: rapid.IntRange(0, 2).Draw(t, "gas0")}
+	c := C18Case{Gas0: rapid.IntRange(0, 2).Draw(t, "gas0"), Base0: rapid.SampledFrom([]int{0, 0, 1, 2, 3, 4}).Draw(t, "base0")}
 	n := rapid.IntRange(6, 30).Draw(t, "n")
 	for i := 0; i < n; i++ {
 		st := C18Step{
 			Parent: rapid.SampledFrom([]int{0, 0, 0, 1, 2, 3, 1, 2, 5, 8}).Draw(t, "parent"),
-			DT:     rapid.SampledFrom([]int{13, 1, 5, 9, 20, 40, 12}).Draw(t, "dt"),
+			DT:     rapid.SampledFrom([]int{13, 1, 5, 9, 20, 40, 12, 899, 900, 1000, 6000}).Draw(t, "dt"),
 			Gas:    rapid.SampledFrom([]int{0, 0, 3, 1, 2}).Draw(t, "gas"),
 			Used:   rapid.IntRange(0, 3).Draw(t, "used"),
 			Aux:    rapid.IntRange(0, 50).Draw(t, "aux"),
@@ -76,7 +77,9 @@ func checkC18(c C18Case, col *Collector) outcome {
 	}
 	gas0 := []uint64{30_000_000, 8_000_000, 5_200}[mod(c.Gas0, 3)]
 	t0 := uint64(1_700_000_000)
-	gen := lcgen.EthGenesis(1000, t0, gas0, gas0/2, 3_000_000, 1_000_000_000)
+	// genesis base fee: 1 gwei, or so low that the proportional change rounds to zero (7, 1 wei), or odd magnitudes
+	base0 := []int64{1_000_000_000, 7, 1, 100, 12_345_678_901}[mod(c.Base0, 5)]
+	gen := lcgen.EthGenesis(1000, t0, gas0, gas0/2, 3_000_000, base0)
 	cs := &ethtypes.ClientState{Header: *gen, ChainId: 1, ContractAddress: common.HexToAddress("0x10").Bytes(), TrustingPeriod: 1 << 40}
 	cons := &ethtypes.ConsensusState{Timestamp: gen.Time, Number: gen.Height, Root: gen.Root}
 	now := time.Unix(int64(t0)+100, 0)
@@ -118,7 +121,7 @@ func checkC18(c C18Case, col *Collector) outcome {
 				gas++
 			}
 		}
-		used := []uint64{gas / 2, 0, gas, gas / 2}[mod(st.Used, 4)]
+		used := []uint64{gas / 2, 0, gas, gas/2 + 1}[mod(st.Used, 4)] // at target, empty, full, one gas above target
 		salt := byte(si + 1)
 		kind := c18Kinds[mod(st.Kind, len(c18Kinds))]
 		applied := kind
@@ -332,6 +335,6 @@ func TestC18(t *testing.T) {
 		t.Logf("seal check on recorded mainnet headers: %v", col.Labels)
 	}
 	runProp(t, "C18",
-		"case = a header tree grown from a synthetic genesis (number 1000, gas limit 30M / 8M / 5200) in 6-30 steps: each step picks a stored parent (the client's latest header or the k-th newest stored header, so competing branches of any depth arise and are revisited) and submits its child with time +1..40 s, gas limit kept / moved to bound-1 / +1, gas used none/half/full, difficulty from go-ethereum's ethash.CalcDifficulty and base fee from misc.CalcBaseFee under a London-at-0 config; one step in four carries one violation (unknown parent, time equal to / before the parent's, 16 s ahead of chain time, gas limit exactly at the bound or below 5000, base fee +-1, difficulty +-1, duplicate of a stored header) and 'exactly 15 s ahead' as a valid boundary case; the ethash seal computation is skipped through the verif build-tag hook for these synthetic headers, and the recorded mainnet headers are run with the seal check ON (genuine accepted, corrupted nonce / mix digest refused) in shard 0 of every run; oracle = accept iff the step is a valid child of a stored header; after every accepted header the client's latest header is that header and for every ancestor of it the exposed consensus state at that height is (time, root) of that ancestor; non-trivial = a history with a reorganisation of depth >= 2 or a return to a previously abandoned branch",
+		"case = a header tree grown from a synthetic genesis (number 1000, gas limit 30M / 8M / 5200) in 6-30 steps: each step picks a stored parent (the client's latest header or the k-th newest stored header, so competing branches of any depth arise and are revisited) and submits its child with time +1..40 s or after a long gap (899 / 900 / 1000 / 6000 s, where the difficulty adjustment saturates), genesis base fee 1 gwei / 7 wei / 1 wei / 100 wei / 12.3 gwei, gas limit kept / moved to bound-1 / +1, gas used none / at target / one above target / full, difficulty from go-ethereum's ethash.CalcDifficulty and base fee from misc.CalcBaseFee under a London-at-0 config; one step in four carries one violation (unknown parent, time equal to / before the parent's, 16 s ahead of chain time, gas limit exactly at the bound or below 5000, base fee +-1, difficulty +-1, duplicate of a stored header) and 'exactly 15 s ahead' as a valid boundary case; the ethash seal computation is skipped through the verif build-tag hook for these synthetic headers, and the recorded mainnet headers are run with the seal check ON (genuine accepted, corrupted nonce / mix digest refused) in shard 0 of every run; oracle = accept iff the step is a valid child of a stored header; after every accepted header the client's latest header is that header and for every ancestor of it the exposed consensus state at that height is (time, root) of that ancestor; non-trivial = a history with a reorganisation of depth >= 2 or a return to a previously abandoned branch",
 		genC18, checkC18)
 }
